@@ -7,6 +7,8 @@ import KavaVerif.Model.GenesisModels
     ValidateGenesis, InitChain import, re-export, export twice, two imports): the predicate "the step
     succeeds" is evaluated (PREDFAIL C14_<step> …).
   * `c14.module plan module equal path a b` — original export vs re-export of one module, JSON-normalised.
+  * `c14.store plan module prefix …` — raw KV stores of every Kava module, derived indexes included, original
+    (check state after export) vs imported app, per first key byte (PREDFAIL C14_store_identical module=… prefix=…).
   * `c14.tx`, `c14.pos`, `c14.invariant` — the common follow-up block: same result codes, every balance and
     position equal up to one base unit, all registered invariants hold on the imported app.
   * `c14.pb`, `c14.savings`, `c14.swap`, `c14.bep3` — the exported (A) and re-exported (B) sections of the four
@@ -45,6 +47,14 @@ def handleModule : Handler
     if equal == "1" then "ok"
     else predfail "C14_reexport_identical" s!"module={m} path={stripIdx path} plan={plan} original={a} imported={b}"
   | _ => badInput "c14.module arity"
+
+/-- `c14.store plan module prefix equal kind n firstKey`: raw KV comparison (derived indexes included) of one
+    (module store, first key byte) group between the original (check state after export) and the imported app -/
+def handleStore : Handler
+  | [plan, m, pfx, equal, kind, n, key] =>
+    if equal == "1" then "ok"
+    else predfail "C14_store_identical" s!"module={m} prefix={pfx} kind={kind} keys={n} first-key={key} plan={plan}"
+  | _ => badInput "c14.store arity"
 
 def handleTx : Handler
   | [plan, idx, kind, a, b] =>
@@ -194,7 +204,7 @@ def handleBep3 : Handler
 
 /-- handlers of property C14: (command name, handler) -/
 def handlers : List (String × Handler) := [
-  ("c14.step", handleStep), ("c14.module", handleModule), ("c14.tx", handleTx), ("c14.pos", handlePos),
+  ("c14.step", handleStep), ("c14.module", handleModule), ("c14.store", handleStore), ("c14.tx", handleTx), ("c14.pos", handlePos),
   ("c14.invariant", handleInvariant), ("c14.pb", handlePB), ("c14.savings", handleSavings),
   ("c14.swap", handleSwap), ("c14.bep3", handleBep3)
 ]
